@@ -250,6 +250,17 @@ var regexpTests = []struct {
 		mustNotMatch: []string{"+"},
 	},
 	{pat: `[!-*]`, want: `(?s)[^-*]`},
+	{
+		pat: `@(a|b)c`, mode: ExtendedOperators | EntireString, want: `(?s)^(a|b)c$`,
+		mustMatch:    []string{"ac", "bc"},
+		mustNotMatch: []string{"c", "@(a|b)c"},
+	},
+	{
+		pat: `x*(a|b`, mode: ExtendedOperators | EntireString, want: `(?s)^x\*\(a\|b$`,
+		mustMatch:    []string{"x*(a|b"},
+		mustNotMatch: []string{"x", "xa", "x(a|b"},
+	},
+	{pat: `@(a|+(b`, mode: ExtendedOperators | EntireString, want: `(?s)^@\(a\|\+\(b$`},
 	{pat: `[a-]`, want: `(?s)[a-]`},
 	{pat: `[[:digit:]]`, want: `(?s)[[:digit:]]`},
 	{
